@@ -16,11 +16,11 @@ import (
 func init() {
 	Register(&Rule{
 		ID: "C12", Section: "4 C12",
-		Technique: "feasible-path enumeration of HostTable.LookupCluster with phis resolved along each path (branch facts over SSA values, contradiction pruning); per-path classification basic={none,miss,advmode,real} x advanced={-,norules,match,nomatch} and value-flow of Route.ClusterName / Route.Error / the returned error; structural check of the rule-iteration index; reachability in ReverseProxy.ServeHTTP; census of writers of the error sentinels",
+		Technique: "feasible-path enumeration of HostTable.LookupCluster with phis resolved along each path (branch facts over SSA values, contradiction pruning); per-path classification basic={none,miss,advmode,real} x advanced={-,norules,match,nomatch} and value-flow of Route.ClusterName / Route.Error / the returned error; structural check of the rule-iteration index; reachability in ReverseProxy.ServeHTTP; census of writers of the error sentinels; loop-iteration must-pass (inside the natural loop over the configured rules no header-to-header path avoids the insertion of the current element) for the basic tree build and the advanced slice build",
 		Meta: core.Meta{
 			Level:       "other",
-			Explanation: "Decides on every feasible path of bfe_route.HostTable.LookupCluster: (a) the basic tree consulted is productBasicRouteTree[req.Route.Product] (only under a successful map lookup), with the request host stripped of its port and URL.Path (\"\" when URL is nil, no nil dereference); (b) the basic result is stored into Route.ClusterName and nil returned exactly when Get reported found and the name was compared unequal to route_rule_conf.AdvancedMode, with no advanced lookup on that path; on every other path the final Route.ClusterName never derives from the basic result; (c) advanced rules are productAdvancedRouteTable[req.Route.Product], Condition.Match is invoked on elements of that slice through an index that ascends by one from 0 (configured order), after a Match that returned true no further Match is invoked and the cluster stored is the ClusterName of that same element; (d) when the product has no advanced rules / no rule matches, Route.ClusterName is \"\", Route.Error receives ErrNoProductRule / ErrNoMatchRule and that same non-nil sentinel is returned; nil is returned only with a cluster from (b) or (c); (e) the sentinels are assigned only by the package initialiser; BfeServer.findCluster and HostTable.Lookup/FindLocation propagate the error unchanged, in ReverseProxy.ServeHTTP no path leads from a failed findCluster to clusterInvoke or ClusterTable.Lookup (not forwarded) and the cluster looked up there is Route.ClusterName of the same request; BfeServer.Balance (TLS proxy mode) consults no balancer after a failed FindLocation; (f) configured order is preserved up to the lookup: convertAdvancedRule stores ClusterName and the built Cond of the i-th configured rule into element i of a slice of len(ruleFiles) published under the product name, RouteTableConf.AdvancedRuleMap/BasicRuleTree are the converters' results and HostTable's two tables are installed only by updateRouteTable from them. Not covered: condition evaluation (C16-C18), the basic tree's own precedence (C11), whether configuration loading rejects empty cluster names, modules that overwrite Route.ClusterName in later callbacks.",
-			RuleText:    "obligations = one per (clause, path class) of LookupCluster, the Get call's operands, the iteration index of each Match site, each sentinel's writers, each propagating caller, the ServeHTTP reachability query and cluster operand, each store of convertAdvancedRule, each writer of the route tables",
+			Explanation: "Decides on every feasible path of bfe_route.HostTable.LookupCluster: (a) the basic tree consulted is productBasicRouteTree[req.Route.Product] (only under a successful map lookup), with the request host stripped of its port and URL.Path (\"\" when URL is nil, no nil dereference); (b) the basic result is stored into Route.ClusterName and nil returned exactly when Get reported found and the name was compared unequal to route_rule_conf.AdvancedMode, with no advanced lookup on that path; on every other path the final Route.ClusterName never derives from the basic result; (c) advanced rules are productAdvancedRouteTable[req.Route.Product], Condition.Match is invoked on elements of that slice through an index that ascends by one from 0 (configured order), after a Match that returned true no further Match is invoked and the cluster stored is the ClusterName of that same element; (d) when the product has no advanced rules / no rule matches, Route.ClusterName is \"\", Route.Error receives ErrNoProductRule / ErrNoMatchRule and that same non-nil sentinel is returned; nil is returned only with a cluster from (b) or (c); (e) the sentinels are assigned only by the package initialiser; BfeServer.findCluster and HostTable.Lookup/FindLocation propagate the error unchanged, in ReverseProxy.ServeHTTP no path leads from a failed findCluster to clusterInvoke or ClusterTable.Lookup (not forwarded) and the cluster looked up there is Route.ClusterName of the same request; BfeServer.Balance (TLS proxy mode) consults no balancer after a failed FindLocation; (f) configured order is preserved up to the lookup: convertAdvancedRule stores ClusterName and the built Cond of the i-th configured rule into element i of a slice of len(ruleFiles) published under the product name, no configured rule can be skipped (every completed iteration of the rule loop has stored both), RouteTableConf.AdvancedRuleMap/BasicRuleTree are the converters' results and HostTable's two tables are installed only by updateRouteTable from them; (g) the basic tree consulted holds every configured basic rule, whatever its cluster name — an ADVANCED_MODE entry must be found by Get so that it shadows a broader basic rule and hands the request to the advanced rules: in convertBasicRule no iteration of the loop over a product's rules completes without BasicRouteRuleTree.Insert(current element) on the tree that is published under the product in the returned map (every product iteration publishes a tree created inside it); BasicRouteRuleTree.Insert cannot report success before the host loop, every host iteration passes hostTrees.insert and the path loop, every path iteration passes pathTrees.insert(current path, *ruleConf.ClusterName) on the trees returned for that host; pathTrees.insert reports success only after a radix insertion whose value is its cluster parameter; nothing in route_rule_conf/bfe_route deletes radix entries. Not covered: condition evaluation (C16-C18), the basic tree's own precedence (C11), whether configuration loading rejects empty cluster names, modules that overwrite Route.ClusterName in later callbacks.",
+			RuleText:    "obligations = one per (clause, path class) of LookupCluster, the Get call's operands, the iteration index of each Match site, each sentinel's writers, each propagating caller, the ServeHTTP reachability query and cluster operand, each store of convertAdvancedRule, each writer of the route tables, each loop of the basic tree build (rules, hosts, paths), the success exits of Insert and pathTrees.insert, the radix-delete census",
 			Assumptions: []string{"condition.Condition.Match does not modify req.Route", "values re-loaded from req.Route.* between a store and a load in LookupCluster are not changed by another goroutine (a request is served by one goroutine)"},
 		},
 		Run: runC12,
@@ -38,6 +38,15 @@ func init() {
 			{Name: "findcluster-swallows-error", File: "bfe_server/find_location.go", Old: "	// look up clusterName\n	return serverConf.HostTable.LookupCluster(req)", New: "	// look up clusterName\n	serverConf.HostTable.LookupCluster(req)\n	return nil", Expect: "propagate"},
 			{Name: "load-reverses-configured-order", File: "bfe_config/bfe_route_conf/route_rule_conf/route_table_load.go", Old: "			rules[i].ClusterName = *ruleFile.ClusterName\n", New: "			rules[len(ruleFiles)-1-i].ClusterName = *ruleFile.ClusterName\n", Expect: "configured-order"},
 			{Name: "tls-balance-ignores-location-error", File: "bfe_server/find_location.go", Old: "	clusterName, err := srv.FindLocation(reqBasic)\n	if err != nil {\n		return nil, err\n	}\n", New: "	clusterName, err := srv.FindLocation(reqBasic)\n", Expect: "propagate|BfeServer.Balance"},
+			{Name: "advanced-mode-rules-left-out-of-tree", File: "bfe_config/bfe_route_conf/route_rule_conf/route_table_load.go", Old: "			if err := ruleTrees.Insert(&ruleFile); err != nil {", New: "			if *ruleFile.ClusterName == AdvancedMode {\n				continue\n			}\n			if err := ruleTrees.Insert(&ruleFile); err != nil {", Expect: "basic-complete|convertBasicRule:every-rule"},
+			{Name: "tree-insert-succeeds-early-for-sentinel", File: "bfe_config/bfe_route_conf/route_rule_conf/basic_rule_tree.go", Old: "	if len(ruleConf.Hostname) == 0 {\n		ruleConf.Hostname = append(ruleConf.Hostname, \"*\")\n	}", New: "	if ruleConf.ClusterName != nil && *ruleConf.ClusterName == AdvancedMode {\n		return nil\n	}\n	if len(ruleConf.Hostname) == 0 {\n		ruleConf.Hostname = append(ruleConf.Hostname, \"*\")\n	}", Expect: "basic-complete|Insert:no-early-success"},
+			{Name: "path-loop-skips-sentinel", File: "bfe_config/bfe_route_conf/route_rule_conf/basic_rule_tree.go", Old: "			if err := pathTree.insert(path, *ruleConf.ClusterName); err != nil {", New: "			if *ruleConf.ClusterName == AdvancedMode && path != \"*\" {\n				continue\n			}\n			if err := pathTree.insert(path, *ruleConf.ClusterName); err != nil {", Expect: "basic-complete|Insert:every-path"},
+			{Name: "path-insert-drops-sentinel", File: "bfe_config/bfe_route_conf/route_rule_conf/basic_rule_tree.go", Old: "	if old, updated := pt[treeType].Insert(key, cluster); updated {", New: "	if cluster == AdvancedMode {\n		return nil\n	}\n	if old, updated := pt[treeType].Insert(key, cluster); updated {", Expect: "basic-complete|pathTrees.insert:stores-cluster"},
+			{Name: "sentinel-entries-deleted-after-build", File: "bfe_config/bfe_route_conf/route_rule_conf/route_table_load.go", Old: "		productRuleMap[product] = ruleList\n", New: "		for _, r := range ruleList {\n			if r.ClusterName == AdvancedMode {\n				for _, h := range r.Hostname {\n					ruleTrees.hosts[treeMatchExact].Delete(h)\n				}\n			}\n		}\n		productRuleMap[product] = ruleList\n", Expect: "basic-complete|no-radix-delete"},
+			{Name: "advanced-rule-skipped-on-load", File: "bfe_config/bfe_route_conf/route_rule_conf/route_table_load.go", Old: "			rules[i].ClusterName = *ruleFile.ClusterName\n", New: "			if *ruleFile.ClusterName == AdvancedMode {\n				continue\n			}\n			rules[i].ClusterName = *ruleFile.ClusterName\n", Expect: "configured-order|convertAdvancedRule:every-rule"},
+			{Name: "silent-index-loop-over-basic-rules", Silent: true, File: "bfe_config/bfe_route_conf/route_rule_conf/route_table_load.go", Old: "		for i, ruleFile := range ruleFiles {\n\n			if ruleFile.ClusterName == nil {\n				return nil, nil, fmt.Errorf(\"no cluster name in basic route rule", New: "		for i := 0; i < len(ruleFiles); i++ {\n			ruleFile := ruleFiles[i]\n\n			if ruleFile.ClusterName == nil {\n				return nil, nil, fmt.Errorf(\"no cluster name in basic route rule"},
+			{Name: "silent-insert-through-helper", Silent: true, File: "bfe_config/bfe_route_conf/route_rule_conf/route_table_load.go", Old: "			if err := ruleTrees.Insert(&ruleFile); err != nil {\n				return nil, nil, err\n			}\n", New: "			addRule := func(t *BasicRouteRuleTree, r *BasicRouteRuleFile) error {\n				if r == nil {\n					return fmt.Errorf(\"nil rule\")\n				}\n				return t.Insert(r)\n			}\n			if err := addRule(ruleTrees, &ruleFile); err != nil {\n				return nil, nil, err\n			}\n"},
+			{Name: "silent-continue-after-insert", Silent: true, File: "bfe_config/bfe_route_conf/route_rule_conf/route_table_load.go", Old: "			if err := ruleTrees.Insert(&ruleFile); err != nil {\n				return nil, nil, err\n			}\n", New: "			if err := ruleTrees.Insert(&ruleFile); err != nil {\n				return nil, nil, err\n			}\n			if ruleList[i].ClusterName == AdvancedMode {\n				continue\n			}\n"},
 			{Name: "silent-rename-and-log", Silent: true, File: "bfe_route/host_table.go", Old: "	for _, rule := range rules {\n		if rule.Cond.Match(req) {\n			clusterName = rule.ClusterName\n			break\n		}\n	}", New: "	for _, advRule := range rules {\n		matched := advRule.Cond.Match(req)\n		if matched {\n			clusterName = advRule.ClusterName\n			break\n		}\n	}"},
 			{Name: "silent-classic-loop", Silent: true, File: "bfe_route/host_table.go", Old: "	for _, rule := range rules {\n		if rule.Cond.Match(req) {\n			clusterName = rule.ClusterName\n			break\n		}\n	}", New: "	for i := 0; i < len(rules); i++ {\n		if rules[i].Cond.Match(req) {\n			clusterName = rules[i].ClusterName\n			break\n		}\n	}"},
 			{Name: "silent-nested-ifs", Silent: true, File: "bfe_route/host_table.go", Old: "		if found && clusterName != route_rule_conf.AdvancedMode {\n			// set clusterName\n			req.Route.ClusterName = clusterName\n			return nil\n		}", New: "		if found {\n			if clusterName != route_rule_conf.AdvancedMode {\n				req.Route.ClusterName = clusterName\n				return nil\n			}\n		}"},
@@ -71,9 +80,8 @@ func rtAscendingIndex(idx ssa.Value) bool {
 		return ok && k == 1
 	}
 	startsAt := func(phi *ssa.Phi, start int64, next func(ssa.Value) bool) bool {
-		if len(phi.Edges) != 2 {
-			return false
-		}
+		// one entry edge with the start value; every other edge (the back
+		// edge, plus one per `continue`) carries the incremented index
 		s, n := 0, 0
 		for _, e := range phi.Edges {
 			if k, ok := rtConstInt(e); ok && k == start {
@@ -82,7 +90,7 @@ func rtAscendingIndex(idx ssa.Value) bool {
 				n++
 			}
 		}
-		return s == 1 && n == 1
+		return s == 1 && n >= 1 && s+n == len(phi.Edges)
 	}
 	if b, ok := idx.(*ssa.BinOp); ok && b.Op == token.ADD {
 		phi, ok := b.X.(*ssa.Phi)
@@ -504,7 +512,9 @@ func runC12(c *core.Ctx) {
 	c12Balance(c)
 	c12ForwardArg(c)
 	c12ConfiguredOrder(c)
+	c12AdvancedComplete(c)
 	c12Tables(c)
+	c12BasicComplete(c)
 }
 
 // c12Balance: BfeServer.Balance (TLS proxy mode) does not select a backend
